@@ -100,9 +100,18 @@ def r_critical(A, ctx, scope, rule="R-CRITICAL"):
     pf = ecls.methods.get("path") if ecls else None
     if pf is None:
         raise AnalysisError("SqrtLasso.path missing")
+    # the scalar that multiplies the geometric grid is the first (largest) alpha of the default
+    # path, whatever the local is called
     site = None
+    lead = None
     for st in ast.walk(pf.node):
-        if isinstance(st, ast.Assign) and isinstance(st.targets[0], ast.Name) and st.targets[0].id == "alpha_max":
+        if isinstance(st, ast.Assign) and isinstance(st.value, ast.BinOp) and isinstance(st.value.op, ast.Mult):
+            for a, b in ((st.value.left, st.value.right), (st.value.right, st.value.left)):
+                if isinstance(a, ast.Name) and isinstance(b, ast.Call) \
+                        and ast.unparse(b.func).split(".")[-1] in ("geomspace", "logspace"):
+                    lead = a.id
+    for st in ast.walk(pf.node):
+        if lead and isinstance(st, ast.Assign) and isinstance(st.targets[0], ast.Name) and st.targets[0].id == lead:
             site = st
     key = f"{pf.fq}::alpha_max"
     if site is None:
@@ -112,7 +121,8 @@ def r_critical(A, ctx, scope, rule="R-CRITICAL"):
             rg = Region(_world((1.0, 1.0)))
             L = RegionLifter(A.prog, rg)
             X, y = _inputs()
-            got = R(L.ev(site.value, {"X": X, "y": y}, pf))
+            params = pf.call_params()
+            got = R(L.ev(site.value, {params[0]: X, params[1]: y}, pf))
             dq = em.classes.get("SqrtQuadratic")
             l1 = _cls(A, A.prog.penalties, "L1")
             dobj = Obj(dq, {})
